@@ -43,6 +43,11 @@ Inductive case :=
 (* only route p (accepted, default limits); request req = host++path built from vals;
    found = ServeHTTP ran p's handler and Reverse returned p without tsr; params as reported *)
 | CRoute (p : bytes) (vals : list bytes) (req : bytes) (found : bool) (params : list (bytes * bytes))
+(* round 7: only route p on a router built with WithIgnoreTrailingSlash(true); req = the instantiation of p
+   with vals with its trailing slash toggled, sent through ServeHTTP in the middle of a history of
+   requests on the same router; served = p's handler ran exactly once; params as the handler saw them.
+   (The direct instantiations of the same history are CRoute cases.) *)
+| CRouteTs (p : bytes) (vals : list bytes) (req : bytes) (served : bool) (params : list (bytes * bytes))
 (* all strings prefix ++ x, lo <= |x| <= hi over the alphabet, in enumeration order, under the
    16 limit pairs: digest of the observations (with error kinds / erased to accept-reject) *)
 | CBlock (prefix : bytes) (lo hi : nat) (dfull derased : N)
@@ -99,6 +104,31 @@ Definition route_ok_with (hb : ascii -> bool) (p : bytes) (vals : list bytes) (r
     (catch_followed ts || list_eqb bytes_eqb (map snd params) vals)
   end.
 
+(* the request with its trailing slash toggled *)
+Definition toggle_slash (s : bytes) : bytes :=
+  match rev s with
+  | "/" :: r => rev r
+  | _ => s ++ ["/"]
+  end.
+Definition has_catch (ts : list token) : bool :=
+  existsb (fun t => match t with TCatch _ => true | _ => false end) ts.
+(* Whether the toggled request is served at all is the trailing-slash option's business (C08), not
+   stated here.  When p's handler does run for it, what it reports must be about THIS request: the
+   pattern's names; values that reproduce the request up to the trailing slash the option ignores; and,
+   when p has no catch-all (a parameter value cannot hold the toggled slash), exactly the substituted values. *)
+Definition route_ts_ok_with (hb : ascii -> bool) (p : bytes) (vals : list bytes) (req : bytes) (served : bool) (params : list (bytes * bytes)) : bool :=
+  let ts := tokenize p in
+  match grammarb_with hb default_limit default_limit p with
+  | None => false
+  | Some _ =>
+    bytes_eqb req (toggle_slash (subst ts vals)) && (length vals =? tok_wilds ts) &&
+    forallb (fun v => negb (is_nil v)) vals &&
+    (negb served ||
+     (list_eqb bytes_eqb (map fst params) (tok_names ts) &&
+      (let back := subst ts (map snd params) in bytes_eqb back req || bytes_eqb back (toggle_slash req)) &&
+      (has_catch ts || list_eqb bytes_eqb (map snd params) vals)))
+  end.
+
 (* ---------- blocks ---------- *)
 Definition alphabet : bytes := ["a"; "1"; "-"; "."; "/"; "{"; "}"; "*"].
 Fixpoint exts (k : nat) : list bytes :=
@@ -146,6 +176,7 @@ Definition model_agrees (c : case) : bool :=
   | CWild key o =>
     opt_eqb (opt_eqb (list_eqb wtuple_eqb)) (model_wild key) (Some o)
   | CRoute _ _ _ _ _ => true
+  | CRouteTs _ _ _ _ _ => true
   | CBlock prefix lo hi dfull _ => N.eqb (fst (fst (block_digests prefix lo hi))) dfull
   | CCount wilds mp o agree =>
     agree && match o with
@@ -167,6 +198,7 @@ Definition spec_ok_with (hb : ascii -> bool) (c : case) : bool :=
     | None => false
     end
   | CRoute p vals req found params => route_ok_with hb p vals req found params
+  | CRouteTs p vals req served params => route_ts_ok_with hb p vals req served params
   | CBlock prefix lo hi _ derased => N.eqb (snd (fst (block_digests prefix lo hi))) derased
   | CCount wilds mp o _ =>
     match o with
@@ -192,6 +224,7 @@ Definition out_of_fuel (c : case) : bool :=
   | CPat1 mp mk p _ _ => match model_obs (N.to_nat mp) (N.to_nat mk) p with None => true | _ => false end
   | CWild key _ => match model_wild key with None => true | _ => false end
   | CRoute _ _ _ _ _ => false
+  | CRouteTs _ _ _ _ _ => false
   | CBlock prefix lo hi _ _ => snd (block_digests prefix lo hi)
   | CCount _ _ _ _ => false
   end.
